@@ -113,3 +113,11 @@ P("C10", "srcfacts+rules",
   "omittable, primitives, custom -> {name}Schema, enums -> z.enum([literals])) implies agreement at every depth; key and name holes of the Zod "
   "templates equal the plain ones per role; nothing on the parameter path constructs z.set/z.map/z.date/... .  Zod's own runtime semantics are not claimed.",
   "the statement's 'Option rendered as omittable' is taken as the oracle for Optional", a=False, b=True)
+
+P("C18", "srcfacts+mirfacts+rules",
+  "static analysis: string-shape paths (SV) of every Custom(name) renderer with their lookup guards, who-may-construct for visitors (CALLS), access discipline on type_mappings (CALLS), literal tables (TABLE), declared-set filter (FLOW)",
+  "Each of the three Custom renderers has a type_mappings.get(name)-guarded hit path that emits the mapped value (its Zod image for schemas) and "
+  "prints the name only on miss paths; the schema builder delegates to the visitor; every visitor/builder on a generation path is constructed "
+  "with the configuration; the table is only accessed by exact-key get; the qualification filter keeps string/number/boolean; both "
+  "generators remove mapped names from the declared set.  By compositionality of the visitors this covers every nesting depth and all five sites.",
+  "mapping targets outside {string, number, boolean} and path-qualified source spellings are not decided", a=True, b=True)
